@@ -35,6 +35,12 @@ type c04Op struct {
 	// mixed: one message of the slot's exporter holding several sets in this order; a set with Tpl
 	// (re-)announces that slot's template, a set without carries data under the template in force at that point
 	Sets []c04MixedSet `json:"sets,omitempty"`
+	// Seq / Domain: sequence number and observation domain (source id) of the message's header when SetHdr is true
+	// (otherwise a counter that grows by one per message and domain 7): exporters restart, count per domain,
+	// wrap around — none of which decides which template is the latest
+	SetHdr bool   `json:"set_hdr,omitempty"`
+	Seq    uint32 `json:"seq,omitempty"`
+	Domain uint32 `json:"domain,omitempty"`
 }
 
 type c04MixedSet struct {
@@ -347,6 +353,15 @@ func genC04(t *rapid.T, proto string, env *wire.GenEnv) c04Case {
 			c.Ops = append(c.Ops, c04Op{Op: "data", Slot: slot, Recs: ds.Recs, Pad: ds.Pad})
 		}
 	}
+	if rapid.IntRange(0, 2).Draw(t, "hdrs") == 0 {
+		for i := range c.Ops {
+			if rapid.Bool().Draw(t, "sethdr") {
+				c.Ops[i].SetHdr = true
+				c.Ops[i].Seq = rapid.OneOf(rapid.SampledFrom([]uint32{0, 1, 2, 0x7fffffff, 0x80000000, 0x80000001, 0xffffffff, 1000}), rapid.Uint32()).Draw(t, "hdrseq")
+				c.Ops[i].Domain = rapid.SampledFrom([]uint32{7, 7, 0, 1, 8, 0xffffffff}).Draw(t, "hdrdomain")
+			}
+		}
+	}
 	return c
 }
 
@@ -416,11 +431,19 @@ func runC04x(c *c04Case) (v verdict, sig string, err error, cache *flowCache, mo
 	inMsgRe := false // data, re-announcement, data of one id inside one message
 	multiTplSet := false
 	seq := uint32(1)
+	var cur *c04Op
+	nonMonotonic := false
 	hdr := func() wire.Msg {
 		seq++
-		return wire.Msg{Proto: c.Proto, Seq: seq, Time: 1000 + seq, Domain: 7, Count: 1}
+		m := wire.Msg{Proto: c.Proto, Seq: seq, Time: 1000 + seq, Domain: 7, Count: 1}
+		if cur != nil && cur.SetHdr {
+			m.Seq, m.Domain = cur.Seq, cur.Domain
+			nonMonotonic = true
+		}
+		return m
 	}
 	for i, op := range c.Ops {
+		cur = &c.Ops[i]
 		if op.Slot < 0 || op.Slot >= len(c.Slots) {
 			return v, "", fmt.Errorf("bad case: slot index"), cache, model
 		}
@@ -617,6 +640,7 @@ func runC04x(c *c04Case) (v verdict, sig string, err error, cache *flowCache, mo
 	v.label(dataAfterRe, "data-after-reannouncement")
 	v.label(inMsgRe, "data-reannounce-data-in-one-message")
 	v.label(multiTplSet, "several-template-records-in-one-set")
+	v.label(nonMonotonic, "drawn-sequence-numbers-and-domains")
 	v.label(sharedID, "one-id-different-definitions")
 	for _, op := range c.Ops {
 		v.label(op.Op == "unknown", "unknown-data")
